@@ -123,8 +123,19 @@ func c02Logs(thorough bool) []c02Log {
 	return logs
 }
 
+// c02Msg translates an entry from raft-index space (in which the logs are written: Id = raft index,
+// Session = index of the CreateSession entry) into message-id space (ids = MessageOffset + index).
+func c02Msg(e ircserver.VEntry) ircserver.VEntry {
+	e.Id = robust.IdFromRaftIndex(e.Id)
+	if e.Session.Id != 0 {
+		e.Session.Id = robust.IdFromRaftIndex(e.Session.Id)
+	}
+	return e
+}
+
 func c02Encode(e ircserver.VEntry) []byte {
-	m := e.Msg()
+	me := c02Msg(e)
+	m := me.Msg()
 	m.Id = robust.Id{} // the API leaves the id to the raft index
 	if *useProtobuf {
 		b, err := proto.Marshal(m.ProtoMessage())
@@ -224,7 +235,7 @@ func (w *c02World) opApply() {
 	w.nextChunk++
 	for _, e := range ch.Entries {
 		w.fsm.Apply(w.raftLog(e))
-		st := w.twin.Apply(e)
+		st := w.twin.Apply(c02Msg(e))
 		w.twinOut[e.Id] = st.Msgs
 		w.applied = append(w.applied, e)
 	}
@@ -447,7 +458,7 @@ func (w *c02World) check(after string) [][2]string {
 	// outputs
 	for _, e := range w.applied {
 		want := w.twinOut[e.Id]
-		got, ok := outputStream.Get(robust.Id{Id: e.Id})
+		got, ok := outputStream.Get(robust.Id{Id: robust.IdFromRaftIndex(e.Id)})
 		if !keys[e.Id] {
 			if ok {
 				add("output of a folded entry is still served", fmt.Sprintf("input %d", e.Id))
@@ -636,6 +647,11 @@ func TestVerifC02(t *testing.T) {
 			break
 		}
 		*useProtobuf = j.pb
+		// message ids = MessageOffset + raft index: every other schedule runs with the production default
+		robust.MessageOffset = 0
+		if ji%2 == 1 {
+			robust.MessageOffset = 4648398125000000000
+		}
 		enc := "protobuf"
 		if !j.pb {
 			enc = "json"
